@@ -5,6 +5,8 @@
 //! A scenario that fails on the current /repo tree is a concrete failing schedule for the obligation
 //! whose label family it is registered under (replay/driver.py).
 mod explore;
+#[cfg(feature = "deadlock-detection")]
+mod dd;
 use rsactor::{spawn, spawn_with_mailbox_capacity, Actor, ActorRef, ActorResult, ActorWeak, Message};
 use std::collections::VecDeque;
 use std::sync::{Arc, Mutex};
@@ -469,6 +471,14 @@ fn main() {
     if want("identity_and_liveness") { emit(rt().block_on(identity_and_liveness())); }
     if want("blocking_api") { emit(blocking_api()); }
     if want("blocking_timeout") { emit(blocking_timeout()); }
+    #[cfg(feature = "deadlock-detection")]
+    {
+        std::panic::set_hook(Box::new(|_| {})); // the deliberate deadlock panics are expected
+        let e = |o: dd::Out| emit(Out { name: o.name, ok: o.ok, detail: o.detail, trace: o.trace });
+        if want("dd_cycles") { e(rt().block_on(dd::cycle(1, "dd_self_ask"))); e(rt().block_on(dd::cycle(2, "dd_two_cycle"))); e(rt().block_on(dd::cycle(3, "dd_three_cycle"))); e(rt().block_on(dd::cycle(4, "dd_four_cycle"))); }
+        if want("dd_no_residue") { e(rt().block_on(dd::no_residue())); }
+        if want("dd_cycle_first_edge_parked") { e(rt().block_on(dd::cycle_first_edge_parked())); }
+    }
     #[cfg(feature = "metrics")]
     if want("metrics_counts") { emit(tokio::runtime::Builder::new_current_thread().enable_all().build().unwrap().block_on(metrics_counts())); }
 }
